@@ -360,6 +360,31 @@ func wrap(old string, wrap int) string {
 	return string(new)
 }
 
+// orderPairs passes on the pairs it receives in the order of their index (their order in the
+// input), holding back those that arrive early, so that what is written does not depend on which
+// worker finishes first
+func orderPairs(cIn chan alignPair) chan alignPair {
+	cOut := make(chan alignPair)
+	go func() {
+		held := make(map[int]alignPair)
+		counter := 0
+		for AP := range cIn {
+			held[AP.idx] = AP
+			for {
+				next, ok := held[counter]
+				if !ok {
+					break
+				}
+				cOut <- next
+				delete(held, counter)
+				counter++
+			}
+		}
+		close(cOut)
+	}()
+	return cOut
+}
+
 // writePairwiseAlignment writes the pairwise alignments between reference and queries to a directory, p, one fasta
 // file per query
 func writePairwiseAlignment(p string, w int, cPair chan alignPair, cWriteDone chan bool, cErr chan error, omitRef bool) {
@@ -369,7 +394,7 @@ func writePairwiseAlignment(p string, w int, cPair chan alignPair, cWriteDone ch
 	var err error
 
 	if p == "stdout" {
-		for AP := range cPair {
+		for AP := range orderPairs(cPair) {
 			if !omitRef {
 				_, err = fmt.Fprintln(os.Stdout, ">"+AP.refname)
 				if err != nil {
@@ -392,7 +417,7 @@ func writePairwiseAlignment(p string, w int, cPair chan alignPair, cWriteDone ch
 	} else {
 		os.MkdirAll(p, 0755)
 
-		for AP := range cPair {
+		for AP := range orderPairs(cPair) {
 			// forward slashes are illegal in unix filenames (so is ascii NUL ?)
 			des := strings.ReplaceAll(AP.queryname, "/", "_")
 			// unix filenames must be <= 255 chars, (account for ".fasta")
